@@ -101,6 +101,67 @@ def expiry(vm, n_peers, n_events):
     return 'ok'
 
 
+class RespProtocol:
+    """The real response/error handlers of KademliaProtocol on an object without transport and loop."""
+    from lbry.dht.protocol.protocol import KademliaProtocol as _KP
+    handle_response_datagram = _KP.handle_response_datagram
+    del _KP
+
+    def __init__(self, pm):
+        self.node_id = b'\xaa' * 48
+        self.peer_manager = pm
+        self.sent_messages = {}
+        self.added = []
+
+    def add_peer(self, peer):
+        self.added.append(peer)
+
+
+def duplicated_response(vm):
+    """A reply that the network delivers twice (or once more, late): the second copy must not change what the node thinks of the peer.
+    Differential oracle: a twin peer manager sees the same history without the extra copy; afterwards, at every later instant, both rate the
+    peer alike - and a peer that has just answered is not rated bad."""
+    from lbry.dht.peer import PeerManager
+    from lbry.dht.serialization.datagram import ResponseDatagram, RESPONSE_TYPE
+    from harness.C01 import ModelFuture
+    clock = Clock()
+    pm, twin = PeerManager(clock), PeerManager(clock)
+    proto, proto_twin = RespProtocol(pm), RespProtocol(twin)
+    peer = make_kademlia_peer(b'\x11' * 48, '8.8.8.8', udp_port=4444)
+    rpc_id = b'r' * 20
+    clock.now = 1000 + vm.new_int('t_request', 0, 10 ** 6)
+    earlier = vm.pick('earlier_failures', 3)            # the peer may have failed before (0, 1 or 2 recorded failures)
+    for k in range(earlier):
+        pm.report_failure(peer.address, peer.udp_port)
+        twin.report_failure(peer.address, peer.udp_port)
+        clock.now = clock.now + vm.new_int('dt_failure', 0, 10 ** 4)
+    for p, m in ((proto, pm), (proto_twin, twin)):
+        m.report_last_sent(peer.address, peer.udp_port)
+        p.sent_messages[rpc_id] = (peer, ModelFuture(), None)
+    clock.now = clock.now + vm.new_int('dt_reply', 0, 4)          # the reply arrives within the RPC timeout
+    reply = ResponseDatagram(RESPONSE_TYPE, rpc_id, peer.node_id, b'pong')
+    for p in (proto, proto_twin):
+        try:
+            p.handle_response_datagram((peer.address, peer.udp_port), reply)
+        except Exception as e:
+            return 'VIOLATION: handling an honest reply raised %s' % type(e).__name__
+        fut = p.sent_messages.pop(rpc_id)[1]               # send_request forgets the rpc once its future is done
+        if not fut.done():
+            return 'VIOLATION: an honest reply does not complete the request'
+    clock.now = clock.now + vm.new_int('dt_duplicate', 0, 10 ** 4)
+    try:
+        proto.handle_response_datagram((peer.address, peer.udp_port), reply)        # the network delivers the same datagram again
+    except Exception as e:
+        return 'VIOLATION: a duplicated reply raised %s' % type(e).__name__
+    clock.now = clock.now + vm.new_int('dt_later', 0, 10 ** 4)
+    a, b = pm.peer_is_good(peer), twin.peer_is_good(peer)
+    if a is not b:
+        return 'VIOLATION: a duplicated reply changes how the peer is rated'
+    if len(proto.added) > 2 or len(proto.added) < 1:
+        return 'VIOLATION: the replying peer is not offered to the routing table (or more than once per copy)'
+    return 'ok-good' if a else 'ok-other'
+
+
 class StubProtocol:
     protocol_version = 1
     external_ip = '9.9.9.9'
@@ -273,6 +334,9 @@ def jobs(tier):
                         loop_bound=200, max_depth=60, cost=30 ** n_events // 100,
                         bounds=dict(announcers=n_peers, events=n_events, event_kinds='announce / clean-up / mark good-bad-unknown',
                                     clock='symbolic non-decreasing, steps up to 3 days')))
+    out.append(dict(name='duplicated-response', family='duplicate', fn='duplicated_response', args=(), loop_bound=200, max_depth=60, cost=20,
+                    bounds=dict(history='0-2 earlier failures, request, reply within the timeout, the same reply again after 0..10^4 s, rating asked '
+                                '0..10^4 s later', clock='symbolic'), must_reach=('ok-good',)))
     out.append(dict(name='store-then-find', family='store', fn='store_then_find', args=(), loop_bound=200, max_depth=60, cost=50,
                     bounds=dict(port='-2..65540', token='the one handed out or another', refreshes='0..2', clock='0..3 days after start'),
                     must_reach=('ok-stored', 'ok-refused')))
